@@ -10,6 +10,7 @@ import (
 	"os"
 	"os/exec"
 	"path/filepath"
+	"runtime"
 	"strconv"
 	"strings"
 	"sync"
@@ -32,6 +33,8 @@ type c16case struct {
 	dirName   string // name of the socket / temp directory the host hands to the plugin ("" = a plain name)
 	chatter   bool   // plugin code prints to os.Stdout / os.Stderr by itself as soon as it is being served
 	ttyErr    bool   // the plugin's stderr is a terminal (somebody ran the binary by hand, or the host gives its plugins a pty)
+	group     string // PLUGIN_UNIX_SOCKET_GROUP ("" = unset): the host is a member of that group, not the plugin's user
+	noSockDir bool   // PLUGIN_UNIX_SOCKET_DIR unset (what Client does for the default command runner): the socket goes to TMPDIR
 }
 
 func (c c16case) String() string {
@@ -57,6 +60,9 @@ func (c c16case) String() string {
 	if c.ttyErr {
 		s += " stderr-is-a-terminal"
 	}
+	if c.group != "" {
+		s += fmt.Sprintf(" PLUGIN_UNIX_SOCKET_GROUP=%s PLUGIN_UNIX_SOCKET_DIR-set=%v host-is-another-user-in-that-group", c.group, !c.noSockDir)
+	}
 	return s
 }
 
@@ -73,7 +79,7 @@ func TestC16(t *testing.T) {
 				for _, tl := range []string{"none", "provider", "clientcert"} {
 					for _, vd := range []bool{false, true} {
 						for _, mx := range []string{"\x00", "", "true", "false", "1", "junk"} {
-							cases = append(cases, c16case{ck, kv[0], kv[1], proto, tl, vd, mx, "", false, "", false, false})
+							cases = append(cases, c16case{ck, kv[0], kv[1], proto, tl, vd, mx, "", false, "", false, false, "", false})
 						}
 					}
 				}
@@ -86,7 +92,7 @@ func TestC16(t *testing.T) {
 		for _, proto := range []string{"netrpc", "grpc"} {
 			for _, vd := range []bool{false, true} {
 				for _, mx := range []string{"\x00", "true"} {
-					cases = append(cases, c16case{cookieVal, cookieKey, cookieVal, proto, "none", vd, mx, vl, false, "", false, false})
+					cases = append(cases, c16case{cookieVal, cookieKey, cookieVal, proto, "none", vd, mx, vl, false, "", false, false, "", false})
 				}
 			}
 		}
@@ -94,14 +100,14 @@ func TestC16(t *testing.T) {
 	// a TLSProvider that fails: without the right cookie the binary still refuses (status 1, nothing printed)
 	for _, ck := range []string{"\x00", "", cookieVal[:4], cookieVal + " ", strings.ToUpper(cookieVal), "other"} {
 		for _, proto := range []string{"netrpc", "grpc"} {
-			cases = append(cases, c16case{ck, cookieKey, cookieVal, proto, "provider-fail", false, "\x00", "", false, "", false, false})
+			cases = append(cases, c16case{ck, cookieKey, cookieVal, proto, "provider-fail", false, "\x00", "", false, "", false, false, "", false})
 		}
 	}
 	// a plugin whose start-up work takes longer than any internal timer of go-plugin: the line still comes with
 	// a listener that accepts
 	for _, tl := range []string{"none", "clientcert"} {
 		for _, mx := range []string{"\x00", "true", "false"} {
-			cases = append(cases, c16case{cookieVal, cookieKey, cookieVal, "grpc", tl, false, mx, "", true, "", false, false})
+			cases = append(cases, c16case{cookieVal, cookieKey, cookieVal, "grpc", tl, false, mx, "", true, "", false, false, "", false})
 		}
 	}
 	// socket directories whose names contain characters that mean something to a formatter or a shell
@@ -124,6 +130,18 @@ func TestC16(t *testing.T) {
 		for _, mx := range []string{"\x00", "true"} {
 			for _, tl := range []string{"none", "clientcert"} {
 				cases = append(cases, c16case{cookie: cookieVal, cfgKey: cookieKey, cfgVal: cookieVal, proto: proto, tls: tl, mux: mx, chatter: true})
+			}
+		}
+	}
+	// the host runs as another user who is a member of the configured socket group (what the group setting is for):
+	// with and without a socket directory handed over, group given by name and by number
+	os.Chmod(base, 0o755)
+	for _, proto := range []string{"netrpc", "grpc"} {
+		for _, g := range []string{"daemon", "1"} {
+			for _, nd := range []bool{false, true} {
+				for _, mx := range []string{"\x00", "true"} {
+					cases = append(cases, c16case{cookie: cookieVal, cfgKey: cookieKey, cfgVal: cookieVal, proto: proto, tls: "none", mux: mx, group: g, noSockDir: nd})
+				}
 			}
 		}
 	}
@@ -162,6 +180,12 @@ func TestC16(t *testing.T) {
 			pj, _ := json.Marshal(pc)
 			cmd := exec.Command(vp)
 			cmd.Env = []string{"VP_CONF=" + string(pj), "TMPDIR=" + dir, "PLUGIN_UNIX_SOCKET_DIR=" + dir}
+			if c.noSockDir {
+				cmd.Env = cmd.Env[:2]
+			}
+			if c.group != "" {
+				cmd.Env = append(cmd.Env, "PLUGIN_UNIX_SOCKET_GROUP="+c.group)
+			}
 			switch {
 			case c.versions == "":
 				cmd.Env = append(cmd.Env, "PLUGIN_PROTOCOL_VERSIONS=1,2")
@@ -308,6 +332,11 @@ func TestC16(t *testing.T) {
 							} else {
 								conn.Close()
 							}
+							if c.group != "" && err == nil {
+								if err := dialAs(65534, 1, f[3]); err != nil {
+									bad("announced address cannot be connected to by a host that is a member of the configured socket group (uid 65534, gid 1): %v", err)
+								}
+							}
 						}
 						time.Sleep(150 * time.Millisecond)
 						if c.chatter {
@@ -363,4 +392,26 @@ func openPty() (master, slave *os.File, err error) {
 		return nil, nil, err
 	}
 	return master, slave, nil
+}
+
+// dialAs connects to a unix socket the way a process with that user and group id would be allowed to: the calling
+// thread's filesystem uid/gid are switched (setfsuid/setfsgid are per thread and drop CAP_DAC_OVERRIDE while non-zero);
+// the thread is not reused afterwards.
+func dialAs(uid, gid uintptr, path string) error {
+	res := make(chan error, 1)
+	go func() {
+		runtime.LockOSThread() // never unlocked: the thread ends with the goroutine
+		syscall.RawSyscall(syscall.SYS_SETFSGID, gid, 0, 0)
+		syscall.RawSyscall(syscall.SYS_SETFSUID, uid, 0, 0)
+		if cur, _, _ := syscall.RawSyscall(syscall.SYS_SETFSUID, uid, 0, 0); cur != uid {
+			res <- nil // not privileged enough to impersonate anybody: nothing to decide
+			return
+		}
+		c, err := net.Dial("unix", path)
+		if err == nil {
+			c.Close()
+		}
+		res <- err
+	}()
+	return <-res
 }
